@@ -248,22 +248,29 @@ func entryCreated(info *types.Info, e regEntry) *types.Named {
 // checkRegistry verifies a factory `switch code { case K: return NewT() ... }` against T.getter().
 // One obligation per case: the created type reports the same constant; no constant twice.
 func checkRegistry(p *core.Program, r *core.Report, rule, relPkg, factory, ifaceName, getter string) *registryResult {
-	res := &registryResult{Cases: map[string]*types.Named{}, Registered: map[*types.TypeName]string{}}
 	fi := p.Func(relPkg, factory)
 	if fi == nil || fi.Decl.Body == nil {
 		r.Undec(rule, relPkg+"."+factory, "-", "factory function not found")
-		return res
+		return &registryResult{Cases: map[string]*types.Named{}, Registered: map[*types.TypeName]string{}}
 	}
+	return checkRegistryFI(p, r, rule, fi, relPkg, factory, relPkg, ifaceName, getter)
+}
+
+// checkRegistryFI: checkRegistry for a factory given as a function or method; the interface the
+// created types must implement is looked up in ifacePkg.
+func checkRegistryFI(p *core.Program, r *core.Report, rule string, fi *core.FuncInfo, relPkg, factory, ifacePkg, ifaceName, getter string) *registryResult {
+	res := &registryResult{Cases: map[string]*types.Named{}, Registered: map[*types.TypeName]string{}}
 	info := fi.Pkg.TypesInfo
 	entries, why := factoryEntries(p, fi)
 	if entries == nil {
 		r.Undec(rule, relPkg+"."+factory, p.Pos(fi.Decl.Pos()), "registry not recognised: "+why)
 		return res
 	}
-	pk := p.Pkg(relPkg)
 	var iface *types.Interface
-	if o := pk.Types.Scope().Lookup(ifaceName); o != nil {
-		iface, _ = o.Type().Underlying().(*types.Interface)
+	if pk := p.Pkg(ifacePkg); pk != nil {
+		if o := pk.Types.Scope().Lookup(ifaceName); o != nil {
+			iface, _ = o.Type().Underlying().(*types.Interface)
+		}
 	}
 	for _, ent := range entries {
 		cl := ent.Body
@@ -337,7 +344,7 @@ func checkRegistry(p *core.Program, r *core.Report, rule, relPkg, factory, iface
 		}
 	}
 	// implementers not registered: information
-	if iface != nil {
+	if pk := p.Pkg(ifacePkg); iface != nil && pk != nil {
 		var names []string
 		for _, nm := range pk.Types.Scope().Names() {
 			tn, ok := pk.Types.Scope().Lookup(nm).(*types.TypeName)
